@@ -429,6 +429,8 @@ func TestC13(t *testing.T) {
  2 ]}`, `[{"jsonrpc":"2.0","id":"a\"b","method":"fail"},{"jsonrpc":"2.0","id":2,"method":"nope"},{"jsonrpc":"2.0","id":3.50,"method":"ok","params":{"k":"é😀"}}]`,
 		`{"jsonrpc":"2.0","id":1e2,"method":"ok","bogus":true}`, `[{"jsonrpc":"1.0","id":9,"method":"ok"},{"jsonrpc":"2.0","method":"ok"}]`, `{"jsonrpc":"2.0","id":"x","method":""}`,
 		`[{"jsonrpc":"2.0","id":10,"method":"ok","params":[10]},{"jsonrpc":"1.0","id":20,"method":"ok","params":[20]},{"jsonrpc":"2.0","id":"thirty","method":"ok","params":["thirty"]},{"jsonrpc":"2.0","method":"ok"}]`,
+		`[{"jsonrpc":"2.0","method":"ok","params":[0]},{"jsonrpc":"2.0","id":10,"method":"ok","params":[10]},{"jsonrpc":"2.0","method":"ok"},{"jsonrpc":"2.0","id":20,"method":"ok","params":[20]},{"jsonrpc":"2.0","id":30,"method":"ok","params":[30]}]`,
+		`[{"jsonrpc":"2.0","method":"ok","params":[0]},{"jsonrpc":"2.0","id":"only","method":"ok","params":["only"]}]`,
 		`[{"jsonrpc":"2.0","id":1,"method":"ok","params":[1],"zz":0},{"jsonrpc":"2.0","id":2,"method":"ok","params":[2]},{"jsonrpc":"2.0","id":3,"method":"nope"},{"jsonrpc":"2.0","id":4,"method":"ok","params":[4]}]`,
 	}
 	for _, b := range bodies {
